@@ -434,9 +434,9 @@ pub fn check_tree(t: &T, fail_at: &[usize]) -> (Option<(String, String)>, usize)
             calls,
         );
     }
-    // the same combinator value applied a second time (fresh tape, cleared log) behaves identically:
-    // combinators keep nothing between applications
-    if fail_at.is_empty() {
+    // the same combinator value applied a second time (fresh tape, cleared log, same failure plan) behaves
+    // identically -- result, error path, order and randomness: combinators keep nothing between applications
+    {
         log.borrow_mut().calls.clear();
         let mut rng2 = TapeRng::default();
         let again = mcx::guarded(|| op.apply(V::Leaf(7), &mut rng2));
